@@ -179,6 +179,8 @@ def rule_format_render(ck, m, rid):
 
 
 def run(ck, m):
+    from rules.common import rule_memo_safety
+    rule_memo_safety(ck, m, "MEMO", "C05")          # first: a memoised helper also hides the code it wraps from the rules below
     # summary of _init_render_: its second result is sanitised
     ir = m.variants(RN, "Renderable._init_render_")[-1]
     rets = [r for r in body_walk(ir) if isinstance(r, ast.Return)]
@@ -496,8 +498,6 @@ def run(ck, m):
     rule_padded_size_maintained(ck, m, "R6")
     rule_padding_after_cache(ck, m, "R6")
 
-    from rules.common import rule_memo_safety
-    rule_memo_safety(ck, m, "MEMO", "C05")
 
 
 MUTANTS = [
